@@ -122,6 +122,7 @@ UpdateContractsWF(g, r, line) ==
      /\ Has("C02") => IF AnyElevUpdated(ops)
                         THEN /\ Chk("C02.NotBelow", line, C02NotBelow(x, r))
                              /\ Chk("C02.Fixed", line, C02Fixed(x, r))
+                             /\ Chk("MACHINERY.SpillCertificateAgrees", line, SpillCertAgrees(x, r))
                              /\ Chk("C02.Level", line, C02Level(x, r))
                         ELSE Chk("C02.Untouched", line, ElevUntouched(x, r))
      /\ (Has("C04") /\ last.k = "single" /\ re[1]) => Chk("C04.SteepestDescent", line, C04(x, r, re[2], re[3]))
@@ -180,6 +181,7 @@ Accumulate(g, a, line) ==
                                /\ Chk("C03.Balance", line, AccBalance(x, r, a))
                                /\ Chk("C03.Conserves", line, AccConserves(x, r, a))
                                /\ Chk("C03.LocalBound", line, AccLocalBound(x, a))
+                         /\ AccApproxDomain(x, r, a) => Chk("C03.ApproxBalance", line, AccApproxBalance(x, r, a))
                          /\ Chk("C03.Indicator", line, AccIndicator(x, r, a))
         /\ MemoOn(a.snap) =>
               (key \in DOMAIN memo => Chk("C09.SameAccumulation", line, memo[key] = a.racc[1]))
@@ -266,7 +268,7 @@ Spl(g, e, line) ==
              /\ Chk("C12.Finite", line, SplFinite(x, e))
              /\ Chk("C12.TerminalsZero", line, SplTerminalsZero(x, r, e))
              /\ Chk("C12.LakesZero", line, SplLakesZero(x, r, e))
-             /\ Chk("C12.NonNegative", line, SplNonNegative(x, e))
+             /\ Chk("C12.NonNegative", line, SplNonNegative(x, r, e))
              /\ Chk("C12.NoReversal", line, SplNoReversal(x, r, e))
         /\ (e.threw = "" /\ Has("C13") /\ "expect" \in DOMAIN e) =>
              /\ Chk("MACHINERY.GeneratedCaseIsExactSolution", line, SplExactSolution(x, r, e))
